@@ -1,8 +1,8 @@
 package types
 
 import (
+	"bytes"
 	"encoding/binary"
-	"strings"
 
 	"github.com/cosmos/cosmos-sdk/codec"
 	sdk "github.com/cosmos/cosmos-sdk/types"
@@ -56,10 +56,15 @@ func IterateProcessedTime(store sdk.KVStore, cb func(key, val []byte) bool) {
 	defer iterator.Close()
 	for ; iterator.Valid(); iterator.Next() {
 		key := iterator.Key()
-		keySplit := strings.Split(string(key), "/")
-		// processed time key in prefix store has format: "consensusState/<height>/processedTime"
-		if len(keySplit) != 3 || keySplit[2] != "processedTime" {
+		// processed time key in prefix store has format: "consensusStates/<height>/processedTime".
+		// <height> is 16 binary bytes that may contain '/', so the key is matched by its
+		// suffix instead of being split on the separator.
+		if !bytes.HasSuffix(key, KeyProcessedTime) {
 			// ignore all consensus state keys
+			continue
+		}
+		if _, _, ok := host.ParseConsensusStateKey(key); ok {
+			// a consensus state key whose binary height happens to end in "/processedTime"
 			continue
 		}
 
